@@ -111,6 +111,29 @@ pub trait RF: Clone + PartialEq + Eq + Hash + Debug + Send + Sync + 'static {
     }
 }
 
+/// modular inverse by the extended Euclidean algorithm (None if not coprime); self-certified
+pub fn modinv(a: &BigUint, m: &BigUint) -> Option<BigUint> {
+    let (mut r0, mut r1) = (BigInt::from(m.clone()), BigInt::from(a.clone() % m));
+    let (mut t0, mut t1) = (BigInt::zero(), BigInt::one());
+    while !r1.is_zero() {
+        let q = &r0 / &r1;
+        let r2 = &r0 - &q * &r1;
+        r0 = r1;
+        r1 = r2;
+        let t2 = &t0 - &q * &t1;
+        t0 = t1;
+        t1 = t2;
+    }
+    if !r0.is_one() {
+        return None;
+    }
+    let mi = BigInt::from(m.clone());
+    let t = ((t0 % &mi) + &mi) % &mi;
+    let inv = t.to_biguint().unwrap();
+    assert!(((a * &inv) % m).is_one(), "modinv failed self-certification");
+    Some(inv)
+}
+
 pub fn bit(e: &BigUint, i: usize) -> bool {
     ((e >> i) & BigUint::one()) == BigUint::one()
 }
